@@ -255,6 +255,16 @@ theorem parse_neg_out_of_range (lit : Str) (n : Nat) (sp1 : Span) (s2 : Scan)
   simp [parseExpr, enter, maxNesting, parseExprUng, parseOr, parseAnd, parseRel, parseAdd, parseMul, parseUnary,
     parseOpRun, parseMember, parsePrimary, pPeek, pNext, lazySrc, lexToken_minus, Loc.adv, hlex, h1, h2]
 
+/-- `-` followed by a lexical error: a syntax error. -/
+theorem parse_neg_lex_error (lit : Str) (e : LexErr) (hlex : lexToken ⟨lit, ⟨0, 1⟩⟩ = .error e) :
+    ∃ e', parseProgram lazySrc ('-' :: lit) = .error e' := by
+  obtain ⟨k, hk⟩ : ∃ k, parseFuel ('-' :: lit).length = k + 12 := ⟨lit.length * 4 + 1992, by simp [parseFuel]; omega⟩
+  refine ⟨⟨e.loc⟩, ?_⟩
+  unfold parseProgram
+  rw [hk]
+  simp [parseExpr, enter, maxNesting, parseExprUng, parseOr, parseAnd, parseRel, parseAdd, parseMul, parseUnary,
+    parseOpRun, pPeek, pNext, lazySrc, lexToken_minus, Loc.adv, hlex]
+
 /-! ### compiling and running a literal -/
 
 /-- The value of a literal primary. -/
